@@ -117,7 +117,8 @@ inline std::vector<CtorOp> ctor_ops(bool wide) {
 // (0x00, 0xFF, 0xA5): the results must be bit-identical.  report(id, message) is called for a discrepancy or a crash;
 // visit(id) for every (op) evaluated.  Returns the number of (op, content) executions.
 inline uint64_t run_ctor_env(const std::vector<CtorOp>& ops, size_t lo, size_t hi, const std::function<bool(const std::string&)>& want,
-                             const std::function<void(const std::string&, const std::string&)>& report, const std::function<void(const std::string&, bool)>& visit) {
+                             const std::function<void(const std::string&, const std::string&)>& report, const std::function<void(const std::string&, bool)>& visit,
+                             bool check_csr = false) {
   static const int POI[3] = {0x00, 0xFF, 0xA5};
   uint64_t* sh = (uint64_t*)mmap(0, 4096, PROT_READ | PROT_WRITE, MAP_SHARED | MAP_ANONYMOUS, -1, 0);
   if (sh == MAP_FAILED) machinery_error("mmap");
@@ -132,9 +133,16 @@ inline uint64_t run_ctor_env(const std::vector<CtorOp>& ops, size_t lo, size_t h
       fflush(stdout);
       pid_t p = fork();
       if (p < 0) machinery_error("fork");
-      if (p == 0) { alloc_track().poison = POI[e]; sh[e] = ops[k].run(); sh[3 + e] = 1; _exit(0); }
+      if (p == 0) {
+        alloc_track().poison = POI[e];
+        unsigned c0 = __builtin_ia32_stmxcsr() & 0xFFC0u;
+        sh[e] = ops[k].run();
+        unsigned c1 = __builtin_ia32_stmxcsr() & 0xFFC0u;
+        sh[6] = c0; sh[7] = c1;
+        sh[3 + e] = 1; _exit(0); }
       int st; waitpid(p, &st, 0);
       ++runs;
+      if (check_csr && WIFEXITED(st) && WEXITSTATUS(st) == 0 && sh[3 + e] && sh[6] != sh[7]) { report(id, sfmt("creating / using / deleting the object leaves the floating-point control register of the calling thread changed (MXCSR control bits 0x%x -> 0x%x): every later floating-point result of that thread depends on it", (unsigned)sh[6], (unsigned)sh[7])); bad = true; break; }
       if (!WIFEXITED(st) || WEXITSTATUS(st) != 0 || !sh[3 + e]) { report(id, sfmt("creating / using / deleting the object crashes when freshly allocated memory is filled with 0x%02x", POI[e])); bad = true; }
       else if (e > 0 && sh[e] != sh[0]) { report(id, sfmt("the results differ between freshly allocated memory filled with 0x00 and with 0x%02x: the constructor (or the use) reads uninitialised heap memory", POI[e])); bad = true; }
     }
